@@ -80,6 +80,14 @@ def generate(rng, tier):
             for na in (0, 1, 2):
                 cases.append(W.mk_case("C04", "hit", "ok", 0, na, [code], [0], False,
                                        {"e": "exc~0", "x0": "ab~%d~0~0" % code, "s%d" % code: W.beh_ret(shape)}))
+    # an exception handler that aborts: the built-in page of that status, with what the abort carries (the realm of a 401
+    # on an application with Digest authentication, the error text) - as from an endpoint
+    for code in (400, 401, 403, 404, 405, 501, 418):
+        for digest in (False, True):
+            for route in ("hit", "rx"):
+                for kw in ("0~0", "2~0", "3~0"):
+                    cases.append(W.mk_case("C04", route, "ok", 0, 1, [], [0], digest, {"e": "exc~0", "x0": "ab~%d~%s" % (code, kw)}))
+                    cases.append(W.mk_case("C04", route, "ok", 0, 1, [], [], digest, {"e": "ab~%d~%s" % (code, kw)}))
     # nested failures to depth 3: endpoint fails -> its handler fails -> the 500 handler fails
     fails = ["exc~0", "exc~2", "ab~404~0~0", "ab~418~0~0", "ret~X", "sysexit", "conn", "base", "ab~0~0~0", "ab~500~0~0"]
     for f1 in fails:
@@ -200,6 +208,9 @@ def oracle(case):
                     bad = "exception handler's value was not interpreted like an endpoint value (status %s)" % status
                 elif h.startswith("ab~") and h.endswith("~0~0"):
                     code = int(h.split("~")[1])
+                    if code not in c["us"] and code in (400, 401, 403, 404, 405, 501) and status != code:
+                        # (the abort carries what the built-in page needs, e.g. the realm of a 401)
+                        bad = "the exception handler aborted with %d: answered %s instead of the built-in page" % (code, status)
                     if code in c["us"] and (c["usm"][c["us"].index(code)] & W.method_bit(c["meth"])):
                         sh = c["prog"].get("s%d" % code, "ret~N")
                         if "s%d" % code not in trace:
